@@ -31,7 +31,49 @@ type pairLE struct {
 	C [2]uint8
 }
 
-var encKinds = []string{"i8", "i16", "i32", "i64", "u16", "u32", "u64", "int", "str16", "bytes3", "structle", "structbe", "bytes64", "bytes1k", "str16long"}
+var encKinds = []string{"i8", "i16", "i32", "i64", "u16", "u32", "u64", "int", "str16", "bytes3", "structle", "structbe", "bytes64", "bytes1k", "str16long", "userenc"}
+
+// userEnc is an Encoder supplied by the "user" (the harness), not one of
+// slim's own: variable width, one length byte followed by the payload, and
+// unlike String16 it tolerates nil / short input in GetEncodedSize and Decode
+// (a robust user implementation). The properties quantify over every encoder;
+// code that special-cases slim's own encoder types, or probes an encoder with
+// nil to guess "fixed size", behaves differently with this one.
+type userEnc struct{}
+
+func (userEnc) Encode(d interface{}) []byte {
+	s := d.(string)
+	if len(s) > 255 {
+		s = s[:255]
+	}
+	return append([]byte{byte(len(s))}, s...)
+}
+
+func (userEnc) Decode(b []byte) (int, interface{}) {
+	if len(b) == 0 {
+		return 0, ""
+	}
+	l := int(b[0])
+	if 1+l > len(b) {
+		l = len(b) - 1
+	}
+	return 1 + l, string(b[1 : 1+l])
+}
+
+func (userEnc) GetSize(d interface{}) int {
+	l := len(d.(string))
+	if l > 255 {
+		l = 255
+	}
+	return 1 + l
+}
+
+func (userEnc) GetEncodedSize(b []byte) int {
+	if len(b) == 0 {
+		return 0
+	}
+	return 1 + int(b[0])
+}
 
 // bytesSize: width of the fixed-size byte-slice encoders.
 func bytesSize(kind string) int {
@@ -48,7 +90,7 @@ func bytesSize(kind string) int {
 
 // fixedEncKinds: encoders whose values have a fixed width (scans with values
 // are only well defined for these in today's slim, see DESIGN 10).
-func encFixed(kind string) bool { return kind != "str16" && kind != "str16long" }
+func encFixed(kind string) bool { return kind != "str16" && kind != "str16long" && kind != "userenc" }
 
 func encoderOf(kind string) encode.Encoder {
 	switch kind {
@@ -68,6 +110,8 @@ func encoderOf(kind string) encode.Encoder {
 		return encode.U64{}
 	case "int":
 		return encode.Int{}
+	case "userenc":
+		return userEnc{}
 	case "str16", "str16long":
 		return encode.String16{}
 	case "bytes3", "bytes64", "bytes1k":
@@ -173,6 +217,20 @@ func valuesOf(kind string, ids []int64, extra int) interface{} {
 			v[i] = strings.Repeat("v", int(x%4)) + fmt.Sprint(x)
 			if x%7 == 3 {
 				v[i] = "" // zero-length payload (2-byte encoding)
+			}
+		}
+		return v[:n]
+	case "userenc":
+		v := make([]string, n+extra)
+		for i := range v {
+			x := id(i)
+			switch x % 5 {
+			case 0:
+				v[i] = "" // zero-length payload: 1-byte encoding
+			case 1:
+				v[i] = "same" // many values of equal length
+			default:
+				v[i] = strings.Repeat("u", int(x%9)) + fmt.Sprint(x)
 			}
 		}
 		return v[:n]
